@@ -362,7 +362,7 @@ def install_session_hooks(ip: Interp, th: ControlTheory, with_exec_contracts=Tru
         ip.contracts[SES + "_exec_property_and_respond"] = c_exec("property")
 
 
-@unit(SES + "_parse_command", ("C18", "C17"), [SES + "_parse_command"])
+@unit(SES + "_parse_command", ("C18", "C17", "C16"), [SES + "_parse_command"])
 def u_parse_command(ip: Interp, th: ControlTheory):
     install_session_hooks(ip, th)
     st = th.initial()
@@ -412,7 +412,7 @@ def inv_listen(c):
             ("one-reply-per-non-blank-line", c.st.loc["$replies"].t == c.st.loc["$lines"].t)]
 
 
-@unit(SES + "listen", ("C18",), [SES + "listen"])
+@unit(SES + "listen", ("C18", "C16"), [SES + "listen"])
 def u_listen(ip: Interp, th: ControlTheory):
     install_session_hooks(ip, th, with_exec_contracts=False)
     ip.contracts[SES + "_parse_command"] = c_parse_command
